@@ -84,7 +84,8 @@ def tok(v, asked=None):
         return f"F{v.arity}"
     if isinstance(v, core.KGSym):
         return "y" + _hex(str(v))
-    if isinstance(v, core.KGChar):
+    if isinstance(v, core.KGChar) or (isinstance(v, str) and type(v).__name__ == "KGChar"):
+        # klongpy.types.KGChar and the backend's own character class (what indexing a string yields)
         return f"c{ord(str(v))}" if len(v) == 1 else "Xchar"
     if isinstance(v, str):
         return "s" + _hex(v)
@@ -152,6 +153,18 @@ UNIVERSE = [
     ":{}", ":{[1 2]}", ':{[:a 1] ["b" [1 2]] [0cc "x"]}', ':{[1.5 "r"] [2 [[1 2] [3 4]]]}',
     "1%0", "(1%0),(1%0)", "1,(1%0)", "[1 2],1%0", '(,1%0),,"a"', ":{[1 2]},1,(1%0)", ",,1%0",
 ]
+# values PRODUCED by evaluating expressions (not literals): characters from indexing a string, numpy scalars
+# from arithmetic, results of the primitives on strings, containers holding such values
+COMPUTED = [
+    '"abc"@1', '"hello"@(#"hello")-1', '*"abc"', '*|"xyz"', '|"abc"', '"abc"@[0 2]', ',"abc"@0',
+    '[1 2],("abc"@1)', ':{[1 2]},1,("abc"@0)', '("abc"@1),,"abc"@2', "{x@1}'[\"ab\" \"cd\"]", '1:#"abc"',
+    ':{[1 2]},("k"@0),,"v"@0', '(,"abc"@1),,,"q"@0',
+    "1+1", "3%2", "2^10", '#"abc"', "+/[1 2 3]", "_3.7", "&/[3 1 2]", "0.5*3", "1.0+1", "*[1 2 3]", "[1 2 3]@1",
+    "[1 2]+1", "(1+1),,3%2", "#0ca", '"abc"="abd"', '"abc"@0=0ca',
+    '"abc","def"', '3#"ab"', '2_"hello"', '"hello"?"l"', '<"cab"', '?"hello"', '="hello foo"', "$123",
+    '"hello"@[0 1]', ',/["ab" "cd"]', '10:$"12"', '&"hello"="l"', '0ca,0cb',
+]
+UNIVERSE += COMPUTED
 UNDEF_EXPRS = [e for e in UNIVERSE if "1%0" in e]
 
 SETUP = ["k0::{77}", "id1::{x}", "snd::{x;y}", "trd::{x;y;z}", "und1::{x;:_x}", "cnt::0", "last::0",
@@ -159,10 +172,13 @@ SETUP = ["k0::{77}", "id1::{x}", "snd::{x;y}", "trd::{x;y;z}", "und1::{x;:_x}", 
          # asymmetric bodies and projections of them whose fixed argument is not (only) leading
          "sub::{x-y}", "cat::{x,y}", "tri::{x,y,z}",
          "dec::sub(;1)", "from10::sub(10;)", 'suf::cat(;">")', 'pre::cat("<";)', "mid::tri(1;;3)",
-         "ends::tri(;2;)", "lead1::tri(7;;)", "nest::lead1(8;)", "nend::ends(;9)", "nmid::ends(5;)"]
+         "ends::tri(;2;)", "lead1::tri(7;;)", "nest::lead1(8;)", "nend::ends(;9)", "nmid::ends(5;)",
+         # functions whose result is a computed character
+         "lastc::{x@(#x)-1}", "nth::{x@y}"]
 # name -> (arity it is called with, kind of its arguments)
 PROJ = dict(sub=(2, "i"), cat=(2, "s"), tri=(3, "i"), dec=(1, "i"), from10=(1, "i"), suf=(1, "s"), pre=(1, "s"),
-            mid=(1, "i"), ends=(2, "i"), lead1=(2, "i"), nest=(1, "i"), nend=(1, "i"), nmid=(1, "i"))
+            mid=(1, "i"), ends=(2, "i"), lead1=(2, "i"), nest=(1, "i"), nend=(1, "i"), nmid=(1, "i"),
+            lastc=(1, "S"), nth=(2, "nth"))
 BUILTIN_NAMES = ["k0", "id1", "snd", "trd", "und1", "pyid", "pysnd", "bump", "keep", "cnt", "last"] + list(PROJ)
 FN_ARITY = dict(k0=0, id1=1, snd=2, trd=3, und1=1, pyid=1, pysnd=2, bump=1, keep=1,
                 **{k: v[0] for k, v in PROJ.items()})
@@ -313,6 +329,102 @@ class StreamRig:
 
         self.loop.run_until_complete(asyncio.wait_for(self.ipc.stream_send_msg(W(), msg_id, msg), 60))
         return b"".join(got)
+
+
+class GatedWriter:
+    """a StreamWriter stand-in whose drain() really suspends (peer not reading): the harness decides
+    which suspended sender is let through next"""
+
+    def __init__(self):
+        self.writes = []
+        self.waiting = []          # (sender tag, future)
+
+    def write(self, b):
+        self.writes.append((asyncio.current_task().get_name(), bytes(b)))
+
+    async def drain(self):
+        fut = asyncio.get_running_loop().create_future()
+        self.waiting.append((asyncio.current_task().get_name(), fut))
+        await fut
+
+
+def run_concurrent_senders(ctx, drv, rig, twin):
+    """two or three coroutines send on ONE connection while the transport exerts back-pressure.  For every
+    order in which the suspended senders are resumed the bytes on the wire must be whole frames, one after
+    the other: the receiver gets every message intact, each exactly once."""
+    import klongpy.sys_fn_ipc as ipc
+    quick = ctx.tier == "quick"
+    rng = ctx.rng
+    KiB = 1024
+
+    def text(n):
+        return "".join(rng.choice("abcdefgh") for _ in range(n))
+
+    configs = [[300 * KiB, 10], [70 * KiB, 300 * KiB, 10], [1024 * KiB, 300 * KiB]]
+    if not quick:
+        configs += [[300 * KiB, 300 * KiB], [1024 * KiB, 10, 70 * KiB], [257 * KiB, 256 * KiB, 255 * KiB], [600 * KiB, 50]]
+    for sizes in configs:
+        objs = [text(n) if n > 100 else rng.choice([1, None, "", twin('"abc"@1')]) for n in sizes]
+        ids = [uuid.UUID(int=rng.getrandbits(128)) for _ in objs]
+        toks = [_mtok(o) for o in objs]
+        nsched = 4 if quick else 16
+        for sched in range(nsched):
+            choices = [rng.random() for _ in range(200)]
+            case = dict(kind="senders", sizes=sizes, schedule=sched, choices=[round(c, 4) for c in choices[:12]],
+                        msgs=toks)
+
+            async def scenario():
+                w = GatedWriter()
+                tasks = [asyncio.ensure_future(ipc.stream_send_msg(w, i, o)) for i, o in zip(ids, objs)]
+                for k, t in enumerate(tasks):
+                    t.set_name(f"s{k}")
+                steps = 0
+                while not all(t.done() for t in tasks):
+                    for _ in range(3):
+                        await asyncio.sleep(0)          # let every runnable sender reach its next drain()
+                    if w.waiting:
+                        if sched == 0:
+                            pick = 0                                    # first come first served
+                        elif sched == 1:
+                            pick = len(w.waiting) - 1                   # last come first served
+                        else:
+                            pick = int(choices[steps % len(choices)] * len(w.waiting))
+                        _, fut = w.waiting.pop(pick)
+                        fut.set_result(None)
+                    steps += 1
+                    if steps > 10000:
+                        raise RuntimeError("senders do not finish")
+                for t in tasks:
+                    t.result()
+                return w.writes
+
+            try:
+                writes = rig.loop.run_until_complete(asyncio.wait_for(scenario(), 120))
+            except Exception as e:                                        # noqa
+                fail(ctx, "senders:raises:" + type(e).__name__, case, "all frames sent", f"{type(e).__name__}: {e}")
+                continue
+            chunks = [b for _, b in writes]
+            order = [t for t, _ in writes]
+            total = sum(len(c) for c in chunks)
+            try:
+                raw, out, tail = rig.recv_all(chunks, lazy=bool(sched % 2))
+                got = sorted((str(m), _mtok(o)) for m, o in out)
+                impl = _impl_line(raw, tail, total, with_msgs=False)
+            except Exception as e:                                        # noqa
+                got, impl = f"receiver raises {type(e).__name__}: {str(e)[:120]}", "tail=raises"
+            exp = sorted((str(i), t) for i, t in zip(ids, toks))
+            case["write_order"] = order[:40]
+            if got != exp or not impl.endswith("tail=clean"):
+                fail(ctx, "senders:interleaved", case, [f"{a}:{b}" for a, b in exp],
+                     got if isinstance(got, str) else [f"{a}:{b}" for a, b in got] + [impl],
+                     "frames of concurrent senders on one connection must reach the wire whole")
+            elif drv and total < 200 * KiB:
+                m = drv.ask("decode chunks=" + ",".join(c.hex() for c in chunks))
+                full_impl = _impl_line(raw, tail, total)
+                if m != full_impl:
+                    ctx.mismatch("Klong.C13.decodeStream vs concurrent senders", case, m[:1500], full_impl[:1500])
+            ctx.bump("senders:" + "+".join(str(n // KiB) + "K" for n in sizes))
+            ctx.count(("senders", tuple(sizes), sched))
 
 
 def _impl_line(raw, tail, total, with_msgs=True):
@@ -575,6 +687,8 @@ def run_framing(ctx, drv, twin):
                 cuts.append((min(i, j), max(i, j)))
             run_stream_batch(ctx, drv, rig, "long-seeded", frames, objs, ids, full[:n], cuts,
                              lazy=rng.random() < 0.5)
+        # ---- several senders on one connection under back-pressure
+        run_concurrent_senders(ctx, drv, rig, twin)
     finally:
         rig.close()
     return kernel_samples
@@ -726,7 +840,7 @@ class Live:
 
         def step(fn, what):
             try:
-                self.guard(fn, what)
+                self.guard(fn, what, timeout=10, soft=True)
             except Exception as e:      # noqa
                 errs.append(f"{what}: {e}")
 
@@ -1004,7 +1118,11 @@ def gen_rebind_history(rng, name, a1, a2, via1, via2, conn, how):
 
 def _proj_args(rng, name):
     n, kind = PROJ[name]
-    pool = ["5", "-3", "17", "0", "4", "100"] if kind == "i" else ['"abc"', '""', '"a"', '"hello foo"']
+    if kind == "nth":
+        w = rng.choice(["world", "a", "hello foo", "xyz"])
+        return [f'"{w}"', str(rng.randrange(len(w)))]
+    pool = {"i": ["5", "-3", "17", "0", "4", "100"], "s": ['"abc"', '""', '"a"', '"hello foo"'],
+            "S": ['"world"', '"abc"', '"a"', '"hello foo"']}[kind]
     return [rng.choice(pool) for _ in range(n)]
 
 
@@ -1318,7 +1436,7 @@ def run_live(ctx, drv, live, singleton):
     # every universe value through every operation form
     values = list(UNIVERSE)
     if quick:
-        keep = set(UNDEF_EXPRS) | set(rng.sample(values, 22))
+        keep = set(UNDEF_EXPRS) | set(rng.sample(values, 22)) | set(COMPUTED[:3]) | set(rng.sample(COMPUTED, 6))
         values = [e for e in values if e in keep]
     for e in values:
         ops = gen_value_ops(rng, e, rng.randrange(2))
@@ -1424,7 +1542,7 @@ def run(ctx):
         ctx.extra["kernel_recheck_s"] = round(time.time() - t0, 1)
         t0 = time.time()
         framing_broken = [f["key"] for f in ctx.oracle_failures
-                          if f["key"].startswith("stream:") and not f["key"].endswith(":undefined")
+                          if f["key"] in ("stream:messages", "stream:tail")         # the stream desynchronises
                           and not str(f["case"].get("label", "")).startswith("long-")]
         if framing_broken:
             # frames do not survive the stream: a live pair would only stall on its first call
@@ -1477,6 +1595,12 @@ def replay(ctx, case):
         elif c.get("kind") == "live":
             live = Live()
             run_sequence(ctx, live, drv, c["ops"], singleton)
+        elif c.get("kind") == "senders":
+            rig = StreamRig()
+            try:
+                run_concurrent_senders(ctx, drv, rig, twin)      # the whole (seeded) section: schedules are cheap
+            finally:
+                rig.close()
         elif c.get("kind") == "fnvalue":
             live = Live()
             run_function_values(ctx, live, False)
